@@ -21,12 +21,12 @@ PID = "C06"
 META = dict(
     level="other",
     stubs=["ytools.mattype(m, 'symmetric') -> True for the (symmetric by construction) symbolic mass", "m.astype(float) on symbolic data -> identity (AST hook)",
-           "np.array / np.zeros / np.ones in cb.py -> object arrays for symbolic data", "la.lu_solve inside SolveUnc.fsolve with symbolic right-hand side -> multiplication by the concrete inverse"],
+           "np.array / np.zeros / np.ones in cb.py -> object arrays for symbolic data", "uset_convert: pandas arithmetic on an object-dtype DataFrame holding the symbolic values (pandas own code, elementwise Python operators)", "la.lu_solve inside SolveUnc.fsolve with symbolic right-hand side -> multiplication by the concrete inverse"],
     outside=["cbcheck: its three rigid-body constructions, effective-mass bookkeeping and grounding numbers rest on eigh / pinv / LU of the model and on report printing - no kernel with symbolic data is in reach; "
-             "not claimed", "cgmass principal axes (eigh)", "uset_convert, mk_net_drms, rbmultchk, rbdispchk, cbcoordchk"],
+             "not claimed", "cgmass principal axes (eigh)", "mk_net_drms, rbmultchk, rbdispchk, cbcoordchk"],
     assumptions=["cgmass: mass > 0, cg in [-10, 10]^3, any symmetric cg inertia in [-10, 10]", "cbtf: three Craig-Bampton models listed in the evidence, 0.5 / 4 / 23 Hz, symbolic complex boundary acceleration",
                  "cbconvert/cbreorder: 6 boundary + 2 modal DOF, symbolic matrix entries"],
-    reach_required=["cgmass", "cbtf", "cbtf-unsorted-bset", "cbreorder", "cbconvert"],
+    reach_required=["uset-convert", "cgmass", "cbtf", "cbtf-unsorted-bset", "cbreorder", "cbconvert"],
     trusted_base=["z3 5.1", "NumPy indexing semantics"],
 )
 
@@ -326,13 +326,96 @@ def replay_reorder(p):
     return False, "cbreorder/cbconvert fine on the real code"
 
 
-REPLAY = {"cgmass": replay_cgmass, "cbtf": replay_cbtf, "reorder": replay_reorder}
+# ---------------------------------------------------------------------------
+# uset_convert: every length in a USET table (grid locations and the origins of their coordinate systems) and the
+# reference point are scaled by the one length factor; ids, types and direction cosines are not
+
+def usetconv_fn(ngrid):
+    def fn(eng):
+        S.set_engine(eng)
+        import pandas as pd
+        import pyyeti.cb as cb
+        f = rebind([cb.uset_convert, cb._get_conv_factors], dict(np=NPProxy()))["uset_convert"]
+        lc = z3.Real("lengthconv")
+        eng.assume(z3.And(lc > 0, lc <= 1000))
+        vals, rows, idx = {}, [], []
+        for g in range(ngrid):
+            for dof in range(1, 7):
+                r = []
+                for c in "xyz":
+                    if dof == 2:
+                        v = [float(10 + g), 1.0 + (g % 3), 0.0]["xyz".index(c)]           # coordinate id, type, 0
+                    else:
+                        z = z3.Real("u%d_%d_%s" % (g, dof, c))
+                        eng.assume(z3.And(z >= -100, z <= 100))
+                        vals[(g, dof, c)] = z
+                        v = S.SymR(z)
+                    r.append(v)
+                rows.append([2097154 if dof < 4 else 4194304] + r)
+                idx.append((100 + g, dof))
+        uset = pd.DataFrame(np.array(rows, dtype=object), index=pd.MultiIndex.from_tuples(idx, names=["id", "dof"]), columns=["nasset", "x", "y", "z"])
+        before = uset.copy()
+        ref = [z3.Real("ref%d" % k) for k in range(3)]
+        info = dict(ngrid=ngrid)
+        try:
+            out, ref2 = f(uset, [S.SymR(x) for x in ref], (S.SymR(lc), 1.0))
+        except E.Inconclusive:
+            raise
+        except Exception as ex:
+            import traceback
+            return [E.Obl("uset_convert raises %r (%s)" % (ex, traceback.format_exc()[-300:]), False, info=info)]
+        eng.tag("uset-convert")
+        obls = [E.Obl("uset_convert: table of the same shape and index", out.shape == uset.shape and list(out.index) == list(uset.index), info=info)]
+        if out.shape != uset.shape:
+            return obls
+        for k, (g, dof) in enumerate([(g, d) for g in range(ngrid) for d in range(1, 7)]):
+            obls.append(E.Obl("uset_convert: set membership of row %d unchanged" % k, out.iloc[k, 0] == before.iloc[k, 0], info=info))
+            for ci, c in enumerate("xyz"):
+                got = out.iloc[k, 1 + ci]
+                if dof == 2:
+                    obls.append(E.Obl("uset_convert: coordinate system id / type of grid %d unchanged" % g, S.lift(got) == S.lift(before.iloc[k, 1 + ci]), info=info))
+                elif dof in (1, 3):
+                    obls.append(E.Obl("uset_convert: %s %s of grid %d is scaled by the length factor" % ("location" if dof == 1 else "coordinate-system origin", c, g),
+                                      S.lift(got) == vals[(g, dof, c)] * lc, info=info))
+                else:
+                    obls.append(E.Obl("uset_convert: direction cosines of grid %d unchanged" % g, S.lift(got) == vals[(g, dof, c)], info=info))
+                obls.append(E.Obl("uset_convert: the caller's table is not modified", uset.iloc[k, 1 + ci] is before.iloc[k, 1 + ci], info=info))
+        for k in range(3):
+            obls.append(E.Obl("uset_convert: reference point scaled by the length factor [%d]" % k, S.lift(np.ravel(ref2)[k]) == ref[k] * lc, info=info))
+        return obls
+    return fn
+
+
+def replay_usetconv(p):
+    import pyyeti.cb as cb
+    from pyyeti.nastran import n2p
+    mdl = p["model"]
+    lc = float(Fraction(mdl.get("lengthconv", 2) or 2))
+    if lc == 1.0:
+        lc = 2.5
+    # a grid in a cylindrical system with its origin away from basic's
+    cyl = np.array([[7, 2, 0], [1.0, 2.0, 3.0], [1.0, 2.0, 4.0], [2.0, 2.0, 3.0]])
+    uset = n2p.addgrid(None, 100, "b", cyl, [2.0, 30.0, 1.5], cyl)
+    out, ref = cb.uset_convert(uset, [1.0, 2.0, 3.0], (lc, 1.0))
+    msgs = []
+    for dof in (1, 3):
+        a, b = uset.loc[(100, dof), "x":"z"].values.astype(float), out.loc[(100, dof), "x":"z"].values.astype(float)
+        if not np.allclose(b, a * lc):
+            msgs.append("uset_convert with length factor %g: %s row %s -> %s" % (lc, "location" if dof == 1 else "coordinate-system origin", a.tolist(), b.tolist()))
+    if not np.allclose(ref, np.array([1.0, 2.0, 3.0]) * lc):
+        msgs.append("reference point -> %s" % np.asarray(ref).tolist())
+    if msgs:
+        return True, "; ".join(msgs)
+    return False, "uset_convert fine on the real code"
+
+
+REPLAY = {"usetconv": replay_usetconv, "cgmass": replay_cgmass, "cbtf": replay_cbtf, "reorder": replay_reorder}
 
 
 def job(kind, *args):
     eng = E.Engine(obl_timeout_ms=120000)
     eng.obl_mode = "each"
-    fn = dict(cgmass=cgmass_fn, cbtf=cbtf_fn, reorder=reorder_fn)[kind](*args)
+    fn = dict(cgmass=cgmass_fn, cbtf=cbtf_fn, reorder=reorder_fn, usetconv=usetconv_fn)[kind](*args)
     res = eng.explore(fn, max_cex=3)
     res["note"] = "%s %s" % (kind, args)
 
@@ -348,7 +431,7 @@ def jobs(tier, seed):
     global CBFREQ
     if tier != "quick":
         CBFREQ = np.array([0.1, 0.5, 2.9, 4.0, 9.1, 23.0, 60.0])
-    out = [H.Job("cgmass", job, "cgmass", weight=10), H.Job("reorder-convert", job, "reorder", weight=10)]
+    out = [H.Job("cgmass", job, "cgmass", weight=10), H.Job("reorder-convert", job, "reorder", weight=10), H.Job("uset-convert", job, "usetconv", 1 if tier == "quick" else 3, weight=5)]
     for name in cbmodels():
         out.append(H.Job("cbtf-%s" % name, job, "cbtf", name, weight=20))
     return out
@@ -356,5 +439,5 @@ def jobs(tier, seed):
 
 def extra_coverage(results):
     import pyyeti.cb as cb
-    return dict(functions_encoded=[H.fn_id(cb.cgmass), H.fn_id(cb.cbtf), H.fn_id(cb.cbreorder), H.fn_id(cb.cbconvert), H.fn_id(cb._get_conv_factors)],
+    return dict(functions_encoded=[H.fn_id(cb.cgmass), H.fn_id(cb.cbtf), H.fn_id(cb.cbreorder), H.fn_id(cb.cbconvert), H.fn_id(cb._get_conv_factors), H.fn_id(cb.uset_convert)],
                 ast_hook_hits={"%s:%s" % k: v for k, v in astload.HITS.items()})
